@@ -299,6 +299,8 @@ C02_Clauses(cfg, S) ==
       Fbk(b) == NodeOf(cfg, b.node).fb
       \* tokens of the errors of attempts 1..m
       AttErr(b, k) == b.execs[k].err
+      \* a flow with a retry budget of its own may repeat a failed pass: only the last block's failure is the run's error
+      Final(s, i) == ~cfg.flowretry \/ i = Len(s.blocks)
   IN [
    attemptNumbers |-> ForAllBlocks(LAMBDA s, i, b : \A k \in 1..m(b) : b.execs[k].k = k),
    atMostN        |-> ForAllBlocks(LAMBDA s, i, b : m(b) <= N(b)),
@@ -320,12 +322,12 @@ C02_Clauses(cfg, S) ==
    fbOutcome      |-> ForAllBlocks(LAMBDA s, i, b :
                         b.fbs # <<>> =>
                           /\ (b.fbs[1].out = "ok" /\ b.posts # <<>> => b.posts[1].exec = b.fbs[1].val)
-                          /\ (b.fbs[1].out = "err" => b.posts = <<>> /\ HasRet(s) /\ RetOf(s).iserr
-                                                      /\ b.fbs[1].err \in Range(RetOf(s).errs))),
+                          /\ (b.fbs[1].out = "err" => b.posts = <<>> /\ (Final(s, i) => HasRet(s) /\ RetOf(s).iserr
+                                                      /\ b.fbs[1].err \in Range(RetOf(s).errs)))),
    \* without a fallback the error of the last attempt is the run's error
    lastErrReturned |-> ForAllBlocks(LAMBDA s, i, b :
                         (b.fbs = <<>> /\ m(b) > 0 /\ m(b) = N(b) /\ AllFailed(b) /\ ~Fbk(b)) =>
-                          b.posts = <<>> /\ HasRet(s) /\ RetOf(s).iserr /\ AttErr(b, m(b)) \in Range(RetOf(s).errs))
+                          b.posts = <<>> /\ (Final(s, i) => HasRet(s) /\ RetOf(s).iserr /\ AttErr(b, m(b)) \in Range(RetOf(s).errs)))
   ]
 C02_OK(cfg, h) == All(C02_Clauses(cfg, Segs(h)))
 
@@ -337,7 +339,9 @@ C03_Clauses(cfg, S) ==
   IN [
    \* visited leaves = the unique path table + returned actions determine; ends exactly there;
    \* nothing off the path has an event (every event sits in the block of a visited node)
-   path   |-> \A j \in 1..Len(S) : PathHolds(cfg, S[j]),
+   \* (flows that have a retry budget of their own repeat a failed pass: those runs are validated against the
+   \* operational specification and through the Flow.Run comparison, not by this single-pass path equation)
+   path   |-> ~cfg.flowretry => \A j \in 1..Len(S) : PathHolds(cfg, S[j]),
    onPath |-> \A j \in 1..Len(S) :
                  /\ Orphans(S[j].cbs) = <<>>
                  /\ \A i \in 1..Len(S[j].blocks) :
@@ -356,13 +360,17 @@ C04_Clauses(cfg, S) ==
       FailedIdx(j) == {i \in 1..Len(B(j)) : IsFailed(B(j)[i])}
   IN [
    \* nil error iff every phase on the path succeeded
-   errIffFailed |-> \A j \in 1..Len(S) : (NoCancel(j) /\ ~cfg.nilstart) =>
+   errIffFailed |-> \A j \in 1..Len(S) : (NoCancel(j) /\ ~cfg.nilstart /\ ~cfg.flowretry) =>
                        HasRet(S[j]) /\ (RetOf(S[j]).iserr <=> FailedIdx(j) # {}),
    \* the returned error matches the callback's error value (errors.Is / errors.As)
+   \* (a flow with a retry budget of its own may recover from a failed pass; then only the failure of the last pass is returned)
    errMatches   |-> \A j \in 1..Len(S) : NoCancel(j) =>
-                       \A i \in FailedIdx(j) : HasRet(S[j]) /\ FailTok(B(j)[i]) \in Range(RetOf(S[j]).errs),
+                       IF cfg.flowretry
+                       THEN HasRet(S[j]) /\ (RetOf(S[j]).iserr => (FailedIdx(j) # {} /\ LET m == CHOOSE i \in FailedIdx(j) : \A i2 \in FailedIdx(j) : i2 <= i
+                                                                                         IN FailTok(B(j)[m]) \in Range(RetOf(S[j]).errs)))
+                       ELSE \A i \in FailedIdx(j) : HasRet(S[j]) /\ FailTok(B(j)[i]) \in Range(RetOf(S[j]).errs),
    \* after the failure no further user callback of that run
-   failStop     |-> \A j \in 1..Len(S) : NoCancel(j) =>
+   failStop     |-> \A j \in 1..Len(S) : (NoCancel(j) /\ ~cfg.flowretry) =>
                        \A i \in FailedIdx(j) : i = Len(B(j)) /\ Last(B(j)[i].evs).out = "err"
   ]
 C04_OK(cfg, h) == All(C04_Clauses(cfg, Segs(h)))
@@ -385,7 +393,7 @@ C05_Clauses(cfg, S) ==
    \* a run reporting success although cancelled was not cut short: it ran its whole path
    noFakeSuccess |-> \A j \in 1..Len(S) : (Cancelled(S[j]) /\ HasRet(S[j]) /\ ~RetOf(S[j]).iserr) =>
                      /\ B(j) # <<>> /\ Last(B(j)).posts # <<>> /\ Last(B(j)).posts[1].out = "ok"
-                     /\ PathHolds(cfg, S[j]),
+                     /\ (cfg.flowretry \/ PathHolds(cfg, S[j])),
    \* an attempt that fails after the cancellation ends the retry loop: the remaining budget is not "recovered"
    \* by the fallback (that would turn a run that was cut short into a success)
    noFallbackRecovery |-> \A j \in 1..Len(S) : CancelIdx(S[j]) # 0 =>
@@ -409,11 +417,14 @@ C10_Clauses(cfg, S) ==
   LET Dummy == 0
   IN [
    \* inner flows run their own path to completion and present their last action
-   hpath     |-> \A j \in 1..Len(S) : PathHolds(cfg, S[j]),
+   hpath     |-> ~cfg.flowretry => \A j \in 1..Len(S) : PathHolds(cfg, S[j]),
    \* ... which is what the equivalent flattened state machine does
-   flattened |-> \A j \in 1..Len(S) : FlatAgrees(cfg, S[j]),
+   flattened |-> ~cfg.flowretry => \A j \in 1..Len(S) : FlatAgrees(cfg, S[j]),
+   \* ... and under the context of the whole run: no context handed to a node dies before the run ends
+   sameContext |-> \A j \in 1..Len(S) : \A i \in 1..Len(S[j].cbs) :
+                     S[j].cbs[i].ev \in {"prep", "exec", "post"} => S[j].cbs[i].cok,
    \* an inner flow that ends by error ends the whole arrangement with that very error (same value outside as inside)
-   innerError |-> \A j \in 1..Len(S) : (~Cancelled(S[j]) /\ HasRet(S[j]) /\ S[j].blocks # <<>>) =>
+   innerError |-> \A j \in 1..Len(S) : (~Cancelled(S[j]) /\ HasRet(S[j]) /\ S[j].blocks # <<>> /\ ~cfg.flowretry) =>
                      LET b == Last(S[j].blocks) IN
                      (NodeOf(cfg, b.node).kind = "leaf" /\ Failed(b)) => RetOf(S[j]).iserr /\ FailTok(b) \in Range(RetOf(S[j]).errs),
    \* every leaf, at any depth, works on the store given to the top-level run
@@ -472,7 +483,7 @@ C18_Clauses(cfg, S) ==
    \* (every run in which some node reports the empty or the default action: in flows that is where a default
    \* connection - of a leaf or of a nested flow - has to be followed)
    routed    |-> \A j \in 1..Len(S) :
-                   (NodeOf(cfg, S[j].call.node).kind = "flow" /\ ~Cancelled(S[j])
+                   (NodeOf(cfg, S[j].call.node).kind = "flow" /\ ~Cancelled(S[j]) /\ ~cfg.flowretry
                       /\ \E i \in 1..Len(S[j].cbs) : S[j].cbs[i].ev = "post" /\ S[j].cbs[i].out = "ok" /\ S[j].cbs[i].act \in {NIL, DefaultAct})
                    => PathHolds(cfg, S[j])
   ]
